@@ -138,6 +138,9 @@ def entries():
     add("LULinear/cached", "transform", lambda: TR.LULinear(3, using_cache=True, identity_init=False), _rn(3), flags={"inv", "linear"})
     add("QRLinear", "transform", lambda: TR.QRLinear(3, num_householder=3), _rn(3), flags={"inv", "linear"})
     add("SVDLinear", "transform", lambda: TR.SVDLinear(3, num_householder=2, identity_init=False), _rn(3), flags={"inv", "linear"})
+    # cache on, with the orthogonal factor in a child module (loaded after the parent's own parameters)
+    add("QRLinear/cached", "transform", lambda: TR.QRLinear(3, num_householder=3, using_cache=True), _rn(3), flags={"inv", "linear", "bigperturb"})
+    add("SVDLinear/cached", "transform", lambda: TR.SVDLinear(3, num_householder=2, using_cache=True, identity_init=False), _rn(3), flags={"inv", "linear", "bigperturb"})
     add("NaiveLinear", "transform", lambda: TR.NaiveLinear(3), _rn(3), flags={"inv", "linear", "ctor_random"})
     add("NaiveLinear/cached", "transform", lambda: TR.NaiveLinear(3, orthogonal_initialization=False, using_cache=True), _rn(3), flags={"inv", "linear", "ctor_random", "bigperturb"})
     def naive64():
